@@ -1048,12 +1048,14 @@ class Engine(Executor):
         lts = [self.iter_lt(st, a) for a in args]
         if all(t.is_concrete() for t in lts):
             return [(st, Opaque("zip", L.LT.of([Tup(list(x)) for x in zip(*[t.concrete_items() for t in lts])])))]
-        h = getattr(self, "zip_handler", None)
-        if h is not None:
-            r = h(self, st, lts)
-            if r is not None:
-                return [(st, Opaque("zip", r))]
-        raise Unsupported("zip over symbolic lists")
+        if all(len(t.segs) == 1 and isinstance(t.segs[0], L.MapSeg) and t.segs[0].body.is_concrete()
+               and len(t.segs[0].body.segs) == 1 for t in lts):
+            segs = [t.segs[0] for t in lts]
+            if all(z3.eq(s_.ivar, segs[0].ivar) and z3.eq(s_.n, segs[0].n) for s_ in segs):
+                # lists indexed by the same binder over the same range: element-wise pairing
+                body = L.LT([L.Unit(Tup([s_.body.segs[0].v for s_ in segs]))])
+                return [(st, Opaque("zip", L.LT([L.MapSeg(segs[0].ivar, segs[0].n, body, "zip")])))]
+        raise Unsupported("zip over symbolic lists of different shape")
 
     def b_dict(self, st, args, kwargs, fn):
         if not args:
